@@ -71,6 +71,19 @@ def make_generated(seed, kind):
             p['ops'] = p['ops'][:40] + ([['end_sequence']] if p['ops'][:40] and p['ops'][:40][-1][0] != 'end_sequence' else [])
         payload, _ = c05.build_sections(line)
     fr = c06.build_case(RndChooser(880000 + seed), 'quick', kind='debug_frame' if seed % 3 else 'eh_frame')
+    if seed % 2 == 1:
+        # a frame section whose decoded tables share state if the library is careless: a CIE without initial rules and one
+        # with rules, each with several FDEs that introduce different registers (decode order must not matter)
+        fr = {'le': le, 'addr_size': cls // 8, 'kind': fr['kind'], 'sec_addr': 0x2000 if fr['kind'] == 'eh_frame' else 0, 'terminator': False, 'entries': []}
+        aug = b'zR' if fr['kind'] == 'eh_frame' else b''
+        cie0 = {'t': 'cie', 'fmt': 32, 'version': 1, 'aug': aug, 'caf': 1, 'daf': -4, 'rar': 16, 'pad': 0, 'fde_enc': 0x03, 'lsda_enc': 0, 'pers': [0, 0], 'ops': []}
+        cie1 = dict(cie0, ops=[['def_cfa', 7, 8], ['offset', 16, 1]], version=3)
+        fr['entries'] = [cie0, cie1]
+        for j, (ci, regs) in enumerate(((0, [3]), (0, [6, 16]), (1, [5]), (0, [12, 3]), (1, [9, 6]))):
+            ops = [['def_cfa', 7, 8 + j]]
+            for r in regs:
+                ops += [['advance_loc', 1 + j], ['offset', r, 2 + j]]
+            fr['entries'].append({'t': 'fde', 'fmt': 32, 'cie': ci, 'loc': 0x3000 + 0x100 * j, 'range': 0x40, 'lsda': None, 'ops': ops, 'pad': j % 3})
     fr['le'] = le
     fr['addr_size'] = cls // 8
     for e in fr['entries']:
@@ -487,7 +500,7 @@ def small_alphabet(a):
         ops += [['from_attribute', 0], ['from_attribute', len(a['refdies']) - 1]]
     if a['sigs']:
         ops += [['by_sig8', 0], ['iter_TUs_all']]
-    ops += [['section_by_name', 1], ['get_section', 3], ['symbol_by_name', 1], ['get_symbol', 2], ['notes'], ['cfi_kept', 1]]
+    ops += [['section_by_name', 1], ['get_section', 3], ['symbol_by_name', 1], ['get_symbol', 2], ['notes'], ['cfi_kept', 1], ['cfi_kept', 2], ['cfi_kept', 3], ['cfi_kept', 0]]
     ops += [['repos', 1, 0], ['repos', 1, 3], ['repos', 0, 1], ['gen_new', 'iter_DIEs', 0], ['gen_new', 'children', 0], ['gen_new', 'iter_CUs', 0], ['gen_adv', 0, 0], ['gen_adv', 1, 1]]
     if any(op[0] == 'line_program' for op in ops) is False and a.get('has_lines'):
         ops += [['line_program', 0]]
